@@ -318,6 +318,61 @@ theorem classes_ok : proxClasses = expectedProxClasses ∧ lossClasses = expecte
     return "\n".join(L) + "\n"
 
 
+def _lean_str(s):
+    return s.replace('\\"', '"').replace("\\\\", "\\")
+
+
+def expected_tables():
+    """the expected tables of Proofs/ProxCalcTables.lean, parsed back (one entry per line) - used to name the rows that differ"""
+    import re
+
+    src = (common.LEAN_DIR / "Scico" / "Proofs" / "ProxCalcTables.lean").read_text()
+    out = {}
+    for name in ("expectedReturns", "expectedMetrics", "expectedRaises"):
+        blk = src[src.index(f"def {name} "):]
+        blk = blk[: blk.index("\n\n")]
+        out[name] = {m.group(1): [_lean_str(x) for x in re.findall(r'"((?:[^"\\]|\\.)*)"', m.group(2))]
+                     for m in re.finditer(r'\("((?:[^"\\]|\\.)*)", \[((?:"(?:[^"\\]|\\.)*"(?:, )?)*)\]\)', blk)}
+    for name in ("expectedAssigns", "expectedDefaults"):
+        blk = src[src.index(f"def {name} "):]
+        blk = blk[: blk.index("\n\n")]
+        out[name] = {(_lean_str(a), _lean_str(b), _lean_str(c)) for a, b, c in re.findall(r'\("((?:[^"\\]|\\.)*)", "((?:[^"\\]|\\.)*)", "((?:[^"\\]|\\.)*)"\)', blk)}
+    blk = src[src.index("def expectedCalls "):]
+    blk = blk[: blk.index("\n\n")]
+    out["expectedCalls"] = [(m.group(1), m.group(2), [_lean_str(x) for x in re.findall(r'"((?:[^"\\]|\\.)*)"', m.group(3))], m.group(4) == "true")
+                            for m in re.finditer(r'⟨"([^"]*)", "([^"]*)", \[(.*?)\], (true|false)⟩', blk)]
+    return out
+
+
+def differing_rows(repo: Path | None = None):
+    """names (`Class.method`, `metric.f`) of the table rows of the working tree that differ from what the model pins;
+    empty list = only the flag logic / class lists can differ"""
+    t = read_tables(repo)
+    e = expected_tables()
+    rows = set()
+    got = dict(t["returns"])
+    for k, v in e["expectedReturns"].items():
+        if got.get(k) != v:
+            rows.add(k)
+    gotm = dict(t["metrics"])
+    for k, v in e["expectedMetrics"].items():
+        if gotm.get(k) != v:
+            rows.add("metric." + k)
+    gotr = dict(t["raises"])
+    for k, v in e["expectedRaises"].items():
+        if gotr.get(k) != v:
+            rows.add(k)
+    for a in e["expectedAssigns"] - set(t["assigns"]):
+        rows.add(a[0])
+    for a in e["expectedDefaults"] - set(t["defaults"]):
+        rows.add(a[0])
+    gc = [(m, c, a, k) for m, c, a, k in t["calls"]]
+    for c in e["expectedCalls"]:
+        if c not in gc:
+            rows.add(c[0])
+    return sorted(rows)
+
+
 def generate(repo: Path | None = None):
     tabs = read_tables(repo)
     txt = render(tabs)
